@@ -358,6 +358,9 @@ func (s *seqState) stepOnce() {
 		status, _ = guard(func() error { return s.derive(f.MultiSelect(cols...)) })
 	case "sort":
 		cols := s.colList(f, 2, bad)
+		if r.Chance(10) {
+			cols = s.colList(f, 4, bad) // longer key lists, names may repeat
+		}
 		asc := r.Bool()
 		if resort {
 			cols, asc = s.lastBy, s.lastAsc // the very same request again
@@ -386,6 +389,9 @@ func (s *seqState) stepOnce() {
 			flags = []bool{asc, r.Bool(), r.Bool()} // only the first flag counts
 		case 2:
 			flags = []bool{asc, !asc}
+		}
+		if len(cols) >= 3 && r.Bool() {
+			flags = []bool{asc, asc} // fewer flags than sort columns, more than one
 		}
 		status, _ = guard(func() error { return s.derive(f.SortValues(cols, flags...)) })
 	case "shift":
@@ -1088,7 +1094,7 @@ func genSeq(r *Rng, mode string, steps int) *Enc {
 				c.Data[i] = c.Data[0]
 			}
 		}
-		last := df.Columns["c069"]
+		last := df.Columns["z"] // the last name in sorted order (position 69)
 		for i := range last.Data {
 			last.Data[i] = i % 2
 		}
